@@ -15,6 +15,8 @@ mod mrg;
 mod flt;
 mod arg;
 mod plg;
+mod rem;
+mod rsn;
 
 pub use rng::Rng;
 
@@ -40,6 +42,8 @@ fn area(name: &str) -> Box<dyn Area> {
         "flt" => Box::new(flt::Flt),
         "arg" => Box::new(arg::Arg),
         "plg" => Box::new(plg::Plg),
+        "rem" => Box::new(rem::Rem),
+        "rsn" => Box::new(rsn::Rsn),
         _ => {
             eprintln!("unknown area {}", name);
             std::process::exit(2)
